@@ -13,7 +13,17 @@ from pyoda_time.calendars._simple_week_year_rule import _SimpleWeekYearRule  # n
 Y = 2000   # the abstract calendar's "current" year; years Y-2 .. Y+3 have symbolic lengths
 
 
-class AYMD:
+class _Unmodelled:
+    """an attribute the abstract calendar does not model (months, days of month): the path is UNKNOWN, never a violation"""
+
+    def __getattr__(self, name):
+        from crosshair.util import CrosshairUnsupported
+        if name.startswith("__"):
+            raise AttributeError(name)
+        raise CrosshairUnsupported(f"abstract calendar record has no {name!r}: outside the SymCalendar abstraction")
+
+
+class AYMD(_Unmodelled):
     def __init__(self, y, days):
         self._year, self.days = y, days
 
@@ -21,7 +31,7 @@ class AYMD:
         return AYMDC(self._year, self.days, cal)
 
 
-class AYMDC:
+class AYMDC(_Unmodelled):
     def __init__(self, y, days, cal):
         self._year, self.days, self.cal = y, days, cal
 
@@ -33,7 +43,7 @@ class AYMDC:
         return self.cal
 
 
-class ADate:
+class ADate(_Unmodelled):
     def __init__(self, y, days, cal):
         self._year_month_day = AYMD(y, days)
         self.calendar = cal
@@ -344,3 +354,56 @@ def premise_real_calendar_ends(P):
     other = [b for b in bad if b not in known]
     detail = f"{n} (calendar, day, rule) cases; failures outside the known region: {len(other)} {other[:4]}; inside it: {len(known)}"
     return (not other), detail, (["C16-badi-year-1"] if known else [])
+
+
+# ------------------------------------------------------------------------------------------------ real calendars around the year boundary
+def _real_params(tier, seed):
+    from props import calsetup as cs
+    out = []
+    rules = [[4, 1], [1, 7]] if tier == "quick" else [[4, 1], [1, 7], [7, 1], [1, 1], [4, 7]]
+    for cid in ("ISO", "Coptic", "Hebrew Scriptural", "Hebrew Civil", "Persian Simple") + (() if tier == "quick" else tuple(cs.pick(cs.ISLAMIC, seed, 2))):
+        ws = cs.windows(cid) if cid in cs.WINDOWED else [(None, None)]
+        ws = ws if tier == "thorough" and cid in cs.WINDOWED else [ws[(seed * 7 + len(cid)) % len(ws)]]
+        for w in ws[: (6 if tier == "thorough" else 1)]:
+            for r in rules:
+                if cid.startswith("Hebrew"):
+                    out += [[cs.P(cid, *w), r[0], r[1], j] for j in range(3)]          # Hebrew: one year per instance (three consecutive years)
+                else:
+                    out.append([cs.P(cid, *w) if w[0] is not None else cid, r[0], r[1]])
+    return out
+
+
+@lemma({"year": int, "k": int}, params=_real_params, budget=300, per_path=60,
+       bounds="REAL calendars (ISO, Coptic, Persian simple, both Hebrew numberings - whose year does not start at month 1; a seeded 180-year "
+              "window for the tabulated ones) x regular rules (ISO-like 4/Monday and 1/Sunday in quick) x every date within 10 days either side "
+              "of the year starts of a 6-year stretch inside it (Hebrew: of one year per instance, three consecutive years; the weekday of a symbolic year start is a solver wall beyond a few years): the week number lies in 1..weeks-in-week-year and (week-year, week, weekday) maps back to the same date")
+def weekyear_real(P):
+    from props import calsetup as cs
+    from props import ymdrecord
+    from pyoda_time import IsoDayOfWeek, LocalDate
+    from pyoda_time.calendars import WeekYearRules
+    cid, lo, hi = cs.unP(P[0])
+    if cid in ("ISO", "Coptic"):
+        lo, hi = 1700, 2300
+    span = 6                                  # years per instance (the weekday of a symbolic year start is a solver wall beyond a few years)
+    y0 = lo + 14 + (P[1] * 37 + P[2] * 11 + len(cid)) % max(1, (hi - lo - 24 - span))
+    if len(P) > 3:                            # Hebrew (molad-based year starts): a single year per instance
+        y0, span = y0 + P[3], 1
+    # a small table window around the stretch (a 180-year if-then-else per year function is most of the cost)
+    cal, calc, _lo, _hi = cs.prepare(cid, y0 - 3, y0 + span + 3) if cid in cs.WINDOWED else cs.prepare(cid)
+    ymdrecord.install()
+    rule = WeekYearRules.for_min_days_in_first_week(P[1], IsoDayOfWeek(P[2]))
+    before = cs.reset_hebrew_cache if cid.startswith("Hebrew") else None
+
+    def h(year, k):
+        assume(y0 <= year < y0 + span)
+        assume(-10 <= k <= 10)
+        days = calc._get_start_of_year_in_days(year) + k
+        date = LocalDate._ctor(days_since_epoch=days, calendar=cal)
+        wy = rule.get_week_year(date)
+        w = rule.get_week_of_week_year(date)
+        if not 1 <= w <= rule.get_weeks_in_week_year(wy, cal):
+            return False
+        back = rule.get_local_date(wy, w, date.day_of_week, cal)
+        return back._days_since_epoch == days
+    return h, before
